@@ -600,6 +600,7 @@ struct Runner : IRunner {
                 }
             }
             after_update(comp, r);
+            last_comp.reset(new detail::compiler<P>(std::move(comp)));
         } catch (const Caught& c) {
             fill(c);
         } catch (const unknown_class_error& e) {
@@ -613,8 +614,10 @@ struct Runner : IRunner {
         return r;
     }
     std::string layout;
+    std::unique_ptr<detail::compiler<P>> last_comp;
     template<class Comp>
     void after_update(Comp& comp, UpdateResult&) {
+        // (moved, not copied: the compiler's tables point into its own containers)
         // where things are, relative to the start of the policy's dispatch data (in words)
         const std::uintptr_t* base = P::dispatch_data.data();
         std::string s = "\"size\":" + std::to_string(P::dispatch_data.size()) + ",\"vptr\":[";
@@ -1103,6 +1106,142 @@ struct Runner : IRunner {
         });
         return r;
     }
+    // ---- encoded dispatch data (C13)
+    struct Block {
+        struct {
+            std::uint16_t* slots;
+            std::uint16_t* vtbls;
+        } encoded;
+        std::uintptr_t* vtbls;
+        std::uintptr_t* dtbls;
+    };
+    static bool find_size(const std::string& text, const char* key, std::size_t from, long& value, std::size_t& after) {
+        auto p = text.find(key, from);
+        if (p == std::string::npos) {
+            return false;
+        }
+        p += std::strlen(key);
+        char* end = nullptr;
+        value = std::strtol(text.c_str() + p, &end, 10);
+        after = p;
+        return end != text.c_str() + p;
+    }
+    static std::vector<unsigned long> words(const std::string& s) {
+        std::vector<unsigned long> v;
+        std::string clean;
+        std::istringstream ls(s);
+        std::string line;
+        while (std::getline(ls, line)) {
+            auto c = line.find("//");
+            clean += (c == std::string::npos ? line : line.substr(0, c)) + " ";
+        }
+        std::istringstream ss(clean);
+        std::string tok;
+        while (std::getline(ss, tok, ',')) {
+            std::size_t b = tok.find_first_not_of(" \t");
+            if (b == std::string::npos) {
+                continue;
+            }
+            v.push_back(std::strtoul(tok.c_str() + b, nullptr, 0));
+        }
+        return v;
+    }
+    std::string encode_decode() override {
+        if constexpr (!is_std) {
+            return ""; // the encoder demangles type_info names: std rtti only
+        } else {
+            if (!last_comp) {
+                return "";
+            }
+            std::ostringstream os;
+            generator::encode_dispatch_data(*last_comp, name_, os);
+            std::string text = os.str();
+            if (std::getenv("DYN_DUMP_ENC")) {
+                std::fprintf(stderr, "%s\n", text.c_str());
+            }
+            long H = -1, S = -1, E = -1, D = -1, T = -1;
+            std::size_t at = 0;
+            bool ok = find_size(text, "uint16_t headroom[", 0, H, at) && find_size(text, "uint16_t slots[", at, S, at) &&
+                      find_size(text, "uint16_t vtbls[", at, E, at) && find_size(text, "std::uintptr_t vtbls[", at, D, at) &&
+                      find_size(text, "std::uintptr_t dtbls[", at, T, at);
+            std::vector<unsigned long> ws, wv, wt;
+            auto init = text.find("yomm2_dispatch_data = {");
+            if (ok && init != std::string::npos) {
+                auto a = text.find("{}, {", init);
+                auto b = text.find("}, {", a + 5);
+                auto c = text.find("} } }, {", b + 4);
+                auto d = text.find("} };", c + 8);
+                if (a == std::string::npos || b == std::string::npos || c == std::string::npos || d == std::string::npos) {
+                    ok = false;
+                } else {
+                    ws = words(text.substr(a + 5, b - a - 5));
+                    wv = words(text.substr(b + 4, c - b - 4));
+                    wt = words(text.substr(c + 8, d - c - 8));
+                }
+            } else {
+                ok = false;
+            }
+            const long LIM = 1 << 22;
+            bool ill = !ok || H < 0 || S < 0 || E < 0 || D < 0 || T < 0 || H > LIM || S > LIM || E > LIM || D > LIM || T > LIM ||
+                       (long)ws.size() > S || (long)wv.size() > E || (long)wt.size() > T;
+            std::set<int> live;
+            for (auto& [rr, cr] : recs) {
+                live.insert(cr.c);
+            }
+            std::string ev1 = "\"e\":\"encoded\",\"ill\":" + std::string(ill ? "true" : "false") + ",\"H\":" + std::to_string(H) +
+                              ",\"S\":" + std::to_string(S) + ",\"E\":" + std::to_string(E) + ",\"D\":" + std::to_string(D) +
+                              ",\"T\":" + std::to_string(T) + ",\"ns\":" + std::to_string(ws.size()) + ",\"nv\":" +
+                              std::to_string(wv.size()) + ",\"nt\":" + std::to_string(wt.size()) + ",\"classes\":" +
+                              std::to_string(live.size());
+            if (ill) {
+                return ev1;
+            }
+            // lay the emitted structure out: the union (encoded words / decoded v-tables), then the dispatch tables
+            std::size_t ubytes = std::max<std::size_t>(2 * (H + S + E), 8 * D);
+            ubytes = (ubytes + 7) & ~std::size_t(7);
+            char* ubuf = static_cast<char*>(std::calloc(ubytes ? ubytes : 8, 1));
+            std::uintptr_t* dt = static_cast<std::uintptr_t*>(std::calloc(T ? T : 1, 8));
+            Block* blk = new Block; // kept alive: the decoded tables live in it
+            blk->encoded.slots = reinterpret_cast<std::uint16_t*>(ubuf + 2 * H);
+            blk->encoded.vtbls = reinterpret_cast<std::uint16_t*>(ubuf + 2 * (H + S));
+            blk->vtbls = reinterpret_cast<std::uintptr_t*>(ubuf);
+            blk->dtbls = dt;
+            for (std::size_t i = 0; i < ws.size(); ++i) blk->encoded.slots[i] = (std::uint16_t)ws[i];
+            for (std::size_t i = 0; i < wv.size(); ++i) blk->encoded.vtbls[i] = (std::uint16_t)wv[i];
+            for (std::size_t i = 0; i < wt.size(); ++i) dt[i] = wt[i];
+            // a process holding the same registrations in which update never ran
+            for (auto& [c, cell] : static_vptr) {
+                *cell = nullptr;
+            }
+            for (auto& sl : pool) {
+                if (sl.declared) {
+                    std::fill_n(sl.info->slots_strides_ptr, 2 * sl.arity - 1, 0);
+                }
+            }
+            std::vector<std::uintptr_t>().swap(P::dispatch_data);
+            if constexpr (P::template has_facet<policy::external_vptr>) {
+                P::vptrs.clear();
+            }
+            g_decode.clear();
+            std::string res = "ok";
+            try {
+                yorel::yomm2::decode_dispatch_data<P>(*blk);
+            } catch (const Caught& c) {
+                res = c.kind == Caught::hash_search ? "hashfail" : "weird";
+            } catch (const error&) {
+                res = "weird";
+            }
+            std::string evs;
+            for (auto& d : g_decode) {
+                long off = d.kind == 't' ? (const char*)d.addr - (const char*)dt : (const char*)d.addr - ubuf;
+                evs += (evs.empty() ? "[\"" : ",[\"") + std::string(1, d.kind) + "\"," + std::to_string(off) + "]";
+            }
+            g_decode.clear();
+            layout.clear();
+            return ev1 + "\n\"e\":\"decoded\",\"res\":\"" + res + "\",\"ev\":[" + evs + "]";
+        }
+    }
+
     // ---- generated static offsets (C12)
     static std::vector<std::size_t> numbers(const std::string& s) {
         std::vector<std::size_t> v;
